@@ -34,7 +34,7 @@ class C11(vlib.Check):
     gen_items = ["fprint_fold"]
     rule = ("all ordered pairs of bit fingerprints over lengths 1..4 (exhaustive: every subset pair x 5 operators x 3 forms) "
             "plus seeded pairs up to 2^32; count/float pairs with overlapping and disjoint supports; scalars 1..9; "
-            "batches of 1-6 with integer and dyadic weights, a third of them holding difference fingerprints with negative counts; mismatched lengths for the rejection path. Non-trivial: both "
+            "batches of 1-6 with integer and dyadic weights, a third of them holding difference fingerprints with negative counts; mismatched lengths for the rejection path; add / mean of 256 - 131 100 operands sharing a position. Non-trivial: both "
             "operands non-empty and the operation succeeded; distinct by full case.")
     trusted_base = ["NumPy set routines (union1d, intersect1d, setdiff1d, setxor1d), compared on every run"]
     assumptions = ["float arithmetic is exact on the generated dyadic values (checked: results compared as exact rationals)"]
@@ -176,6 +176,22 @@ class C11(vlib.Check):
                         w = ["1"] + ["0"] * (k - 1)
             self.count("batch")
             yield {"t": "batch", "o": rng.choice(["add", "mean"]), "fps": fps, "w": w}
+        # many operands: the count at a position shared by all of them passes 255 / 65 535 (what narrow accumulators hold)
+        for k, o in ([(256, "mean"), (512, "add"), (300, "add"), (66000, "add")] if self.tier == "quick" else
+                     [(256, "mean"), (512, "add"), (300, "add"), (66000, "add"), (1024, "mean"), (257, "add"), (70000, "add"), (131100, "add"), (65536, "mean")]):
+            bits = rng.choice([8, 64, 2 ** 32])
+            common = rng.randrange(bits)
+            kinds = rng.choice([["bit"], ["bit", "count"], ["count"]])
+            fps = []
+            for _j in range(k):
+                f = gen_fp(rng, rng.choice(kinds), bits, level=5, maxn=2)
+                if common not in f["idx"]:
+                    f["idx"] = sorted(f["idx"] + [common])
+                    if f["kind"] != "bit":
+                        f["cnt"] = sorted(f["cnt"] + [[common, "1"]])
+                fps.append(f)
+            self.count("batch:many-operands")
+            yield {"t": "batch", "o": o, "fps": fps, "w": None}
 
     # ------------------------------------------------------------------ implementation
     def _apply_setop(self, case, a, b):
